@@ -3,7 +3,7 @@
 use core::convert::TryFrom;
 use helgoboss_midi::*;
 use rayon::prelude::*;
-use serde::de::value::{BoolDeserializer, Error as DeErr, F64Deserializer, I16Deserializer, I32Deserializer, I64Deserializer, I8Deserializer, StrDeserializer, U16Deserializer, U32Deserializer, U64Deserializer, U8Deserializer, UnitDeserializer};
+use serde::de::value::{BytesDeserializer, BoolDeserializer, Error as DeErr, F64Deserializer, I16Deserializer, I32Deserializer, I64Deserializer, I8Deserializer, StrDeserializer, U16Deserializer, U32Deserializer, U64Deserializer, U8Deserializer, UnitDeserializer};
 use serde::de::DeserializeOwned;
 use serde::{Deserialize, Serialize};
 use serde_json::{json, Value};
@@ -16,6 +16,87 @@ static ALLOC: xs::alloc::Counting = xs::alloc::Counting;
 
 pub const PART: &str = "serde";
 
+// ---------------------------------------------------------------------------------------------
+// A recursive deserializer adapter that reports `is_human_readable() == false` (what binary
+// formats such as bincode or postcard report) and otherwise forwards everything. A hand-written
+// Deserialize impl may branch on that flag; "deserializing any input" includes such formats.
+// ---------------------------------------------------------------------------------------------
+mod nh {
+    use serde::de::{DeserializeSeed, Deserializer, EnumAccess, MapAccess, SeqAccess, VariantAccess, Visitor};
+    pub struct NH<D>(pub D);
+    struct V<T>(T);
+    struct A<T>(T);
+    struct S<T>(T);
+
+    macro_rules! fwd {
+        ($($m:ident),*) => {$(
+            fn $m<W: Visitor<'de>>(self, v: W) -> Result<W::Value, Self::Error> { self.0.$m(V(v)) }
+        )*};
+    }
+    impl<'de, D: Deserializer<'de>> Deserializer<'de> for NH<D> {
+        type Error = D::Error;
+        fn is_human_readable(&self) -> bool { false }
+        fwd!(deserialize_any, deserialize_bool, deserialize_i8, deserialize_i16, deserialize_i32, deserialize_i64, deserialize_i128,
+             deserialize_u8, deserialize_u16, deserialize_u32, deserialize_u64, deserialize_u128, deserialize_f32, deserialize_f64,
+             deserialize_char, deserialize_str, deserialize_string, deserialize_bytes, deserialize_byte_buf, deserialize_option,
+             deserialize_unit, deserialize_seq, deserialize_map, deserialize_identifier, deserialize_ignored_any);
+        fn deserialize_unit_struct<W: Visitor<'de>>(self, n: &'static str, v: W) -> Result<W::Value, Self::Error> { self.0.deserialize_unit_struct(n, V(v)) }
+        fn deserialize_newtype_struct<W: Visitor<'de>>(self, n: &'static str, v: W) -> Result<W::Value, Self::Error> { self.0.deserialize_newtype_struct(n, V(v)) }
+        fn deserialize_tuple<W: Visitor<'de>>(self, l: usize, v: W) -> Result<W::Value, Self::Error> { self.0.deserialize_tuple(l, V(v)) }
+        fn deserialize_tuple_struct<W: Visitor<'de>>(self, n: &'static str, l: usize, v: W) -> Result<W::Value, Self::Error> { self.0.deserialize_tuple_struct(n, l, V(v)) }
+        fn deserialize_struct<W: Visitor<'de>>(self, n: &'static str, f: &'static [&'static str], v: W) -> Result<W::Value, Self::Error> { self.0.deserialize_struct(n, f, V(v)) }
+        fn deserialize_enum<W: Visitor<'de>>(self, n: &'static str, f: &'static [&'static str], v: W) -> Result<W::Value, Self::Error> { self.0.deserialize_enum(n, f, V(v)) }
+    }
+    macro_rules! vis {
+        ($($m:ident: $t:ty),*) => {$(
+            fn $m<E: serde::de::Error>(self, x: $t) -> Result<Self::Value, E> { self.0.$m(x) }
+        )*};
+    }
+    impl<'de, W: Visitor<'de>> Visitor<'de> for V<W> {
+        type Value = W::Value;
+        fn expecting(&self, f: &mut std::fmt::Formatter) -> std::fmt::Result { self.0.expecting(f) }
+        vis!(visit_bool: bool, visit_i8: i8, visit_i16: i16, visit_i32: i32, visit_i64: i64, visit_i128: i128, visit_u8: u8, visit_u16: u16,
+             visit_u32: u32, visit_u64: u64, visit_u128: u128, visit_f32: f32, visit_f64: f64, visit_char: char, visit_str: &str,
+             visit_borrowed_str: &'de str, visit_string: String, visit_bytes: &[u8], visit_borrowed_bytes: &'de [u8], visit_byte_buf: Vec<u8>);
+        fn visit_none<E: serde::de::Error>(self) -> Result<Self::Value, E> { self.0.visit_none() }
+        fn visit_unit<E: serde::de::Error>(self) -> Result<Self::Value, E> { self.0.visit_unit() }
+        fn visit_some<D: Deserializer<'de>>(self, d: D) -> Result<Self::Value, D::Error> { self.0.visit_some(NH(d)) }
+        fn visit_newtype_struct<D: Deserializer<'de>>(self, d: D) -> Result<Self::Value, D::Error> { self.0.visit_newtype_struct(NH(d)) }
+        fn visit_seq<X: SeqAccess<'de>>(self, a: X) -> Result<Self::Value, X::Error> { self.0.visit_seq(A(a)) }
+        fn visit_map<X: MapAccess<'de>>(self, a: X) -> Result<Self::Value, X::Error> { self.0.visit_map(A(a)) }
+        fn visit_enum<X: EnumAccess<'de>>(self, a: X) -> Result<Self::Value, X::Error> { self.0.visit_enum(A(a)) }
+    }
+    impl<'de, X: SeqAccess<'de>> SeqAccess<'de> for A<X> {
+        type Error = X::Error;
+        fn next_element_seed<T: DeserializeSeed<'de>>(&mut self, seed: T) -> Result<Option<T::Value>, X::Error> { self.0.next_element_seed(S(seed)) }
+        fn size_hint(&self) -> Option<usize> { self.0.size_hint() }
+    }
+    impl<'de, X: MapAccess<'de>> MapAccess<'de> for A<X> {
+        type Error = X::Error;
+        fn next_key_seed<K: DeserializeSeed<'de>>(&mut self, seed: K) -> Result<Option<K::Value>, X::Error> { self.0.next_key_seed(S(seed)) }
+        fn next_value_seed<T: DeserializeSeed<'de>>(&mut self, seed: T) -> Result<T::Value, X::Error> { self.0.next_value_seed(S(seed)) }
+        fn size_hint(&self) -> Option<usize> { self.0.size_hint() }
+    }
+    impl<'de, X: EnumAccess<'de>> EnumAccess<'de> for A<X> {
+        type Error = X::Error;
+        type Variant = A<X::Variant>;
+        fn variant_seed<T: DeserializeSeed<'de>>(self, seed: T) -> Result<(T::Value, Self::Variant), X::Error> {
+            self.0.variant_seed(S(seed)).map(|(v, va)| (v, A(va)))
+        }
+    }
+    impl<'de, X: VariantAccess<'de>> VariantAccess<'de> for A<X> {
+        type Error = X::Error;
+        fn unit_variant(self) -> Result<(), X::Error> { self.0.unit_variant() }
+        fn newtype_variant_seed<T: DeserializeSeed<'de>>(self, seed: T) -> Result<T::Value, X::Error> { self.0.newtype_variant_seed(S(seed)) }
+        fn tuple_variant<W: Visitor<'de>>(self, len: usize, v: W) -> Result<W::Value, X::Error> { self.0.tuple_variant(len, V(v)) }
+        fn struct_variant<W: Visitor<'de>>(self, f: &'static [&'static str], v: W) -> Result<W::Value, X::Error> { self.0.struct_variant(f, V(v)) }
+    }
+    impl<'de, T: DeserializeSeed<'de>> DeserializeSeed<'de> for S<T> {
+        type Value = T::Value;
+        fn deserialize<D: Deserializer<'de>>(self, d: D) -> Result<T::Value, D::Error> { self.0.deserialize(NH(d)) }
+    }
+}
+
 fn vio(chk: &Check, rule: &str, cls: &str, case: String, detail: String) {
     chk.violate(Violation::new(rule, format!("C19/{}/{}", rule, cls), detail).with_case(case));
 }
@@ -23,6 +104,8 @@ fn vio(chk: &Check, rule: &str, cls: &str, case: String, detail: String) {
 struct Cnt {
     evals: AtomicU64,
     invalid_inputs: AtomicU64,
+    /// inputs that are not a natural representation but were accepted and mapped to a valid value
+    lenient: AtomicU64,
 }
 
 trait IntT: DeserializeOwned + Serialize + Copy + Debug + PartialEq + TryFrom<u16> + Send + Sync {
@@ -62,7 +145,10 @@ fn judge_int<T: IntT>(chk: &Check, cnt: &Cnt, how: &str, math: Option<i128>, r: 
             if v.getw() > T::MAXV {
                 vio(chk, "deserialize-accepts-invalid", &format!("{}/out-of-range", T::NAME), format!("int|{}|{}", T::NAME, how), format!("{}::deserialize({}) produced a value holding {} (MAX {})", T::NAME, how, v.getw(), T::MAXV));
             } else if !in_range {
-                vio(chk, "deserialize-accepts-invalid", &format!("{}/wrong-input-accepted", T::NAME), format!("int|{}|{}", T::NAME, how), format!("{}::deserialize({}) accepted an input that is not a number in 0..={} and produced {}", T::NAME, how, T::MAXV, v.getw()));
+                // an input that is not the natural representation of a valid value was accepted and
+                // turned into SOME valid value: the statement ("either fails or yields a value that
+                // could have been built through the constructors") allows that; only counted
+                cnt.lenient.fetch_add(1, Ordering::Relaxed);
             } else if Some(v.getw() as i128) != math {
                 vio(chk, "deserialize-wrong-value", T::NAME, format!("int|{}|{}", T::NAME, how), format!("{}::deserialize({}) produced {}", T::NAME, how, v.getw()));
             }
@@ -75,6 +161,19 @@ fn judge_int<T: IntT>(chk: &Check, cnt: &Cnt, how: &str, math: Option<i128>, r: 
 }
 
 fn ints_for<T: IntT>(chk: &Check, cnt: &Cnt, tier: Tier) {
+    // non-human-readable front end: every u8 / u16 / i16 value and the wide boundary values
+    for v in 0..=65535u16 {
+        judge_int::<T>(chk, cnt, &format!("{}u16 (not human readable)", v), Some(v as i128), catch(|| T::deserialize(nh::NH(U16Deserializer::<DeErr>::new(v)))));
+        let i = v as i16;
+        judge_int::<T>(chk, cnt, &format!("{}i16 (not human readable)", i), Some(i as i128), catch(|| T::deserialize(nh::NH(I16Deserializer::<DeErr>::new(i)))));
+        if v < 256 {
+            judge_int::<T>(chk, cnt, &format!("{}u8 (not human readable)", v), Some(v as i128), catch(|| T::deserialize(nh::NH(U8Deserializer::<DeErr>::new(v as u8)))));
+        }
+    }
+    for w in [65536u64, 65536 + 5, (1 << 32) + 5, u64::MAX, 1 << 63] {
+        judge_int::<T>(chk, cnt, &format!("{}u64 (not human readable)", w), Some(w as i128), catch(|| T::deserialize(nh::NH(U64Deserializer::<DeErr>::new(w)))));
+        judge_int::<T>(chk, cnt, &format!("{}i64 (not human readable)", w as i64), Some(w as i64 as i128), catch(|| T::deserialize(nh::NH(I64Deserializer::<DeErr>::new(w as i64)))));
+    }
     for v in 0..=255u8 {
         judge_int::<T>(chk, cnt, &format!("{}u8", v), Some(v as i128), catch(|| T::deserialize(U8Deserializer::<DeErr>::new(v))));
         let i = v as i8;
@@ -127,10 +226,27 @@ fn ints_for<T: IntT>(chk: &Check, cnt: &Cnt, tier: Tier) {
 /// Generic judgement of a composite input. `valid`: whether the field values satisfy the
 /// constructors' preconditions; `check`: post-deserialisation invariants and accessor calls,
 /// returns a description of what is wrong with an accepted value (None = fine).
-fn judge<T: DeserializeOwned + Debug>(chk: &Check, cnt: &Cnt, ty: &str, cls_if_bad: &str, input: &Value, valid: bool, check: impl FnOnce(&T) -> Option<String>) {
+fn judge<T: DeserializeOwned + Debug>(chk: &Check, cnt: &Cnt, ty: &str, cls_if_bad: &str, input: &Value, valid: bool, check: impl Fn(&T) -> Option<String>) {
     cnt.evals.fetch_add(1, Ordering::Relaxed);
     if !valid {
         cnt.invalid_inputs.fetch_add(1, Ordering::Relaxed);
+    }
+    // second front end: the same tree through a deserializer that is NOT human readable (what
+    // binary formats report); only the validity of what comes out is judged there, since a
+    // format-aware impl may legitimately reject JSON-like shapes in that mode
+    {
+        let r2 = catch(|| T::deserialize(nh::NH(input.clone())));
+        cnt.evals.fetch_add(1, Ordering::Relaxed);
+        let case = || format!("de-binary|{}|{}", ty, input);
+        match r2 {
+            Err(p) => vio(chk, "deserialize-panics", &format!("{}/not-human-readable", ty), case(), format!("deserialising {} as {} through a non-human-readable deserializer panicked: {}", input, ty, p)),
+            Ok(Ok(v)) => match catch(|| check(&v)) {
+                Err(p) => vio(chk, "deserialize-accepts-invalid", &format!("{}/{}/not-human-readable/accessor-panics", ty, cls_if_bad), case(), format!("{} through a non-human-readable deserializer gave {:?}; an accessor then panicked: {}", input, v, p)),
+                Ok(Some(bad)) => vio(chk, "deserialize-accepts-invalid", &format!("{}/{}/not-human-readable", ty, cls_if_bad), case(), format!("{} through a non-human-readable deserializer gave {:?}: {}", input, v, bad)),
+                Ok(None) => {}
+            },
+            Ok(Err(_)) => {}
+        }
     }
     let r = catch(|| serde_json::from_value::<T>(input.clone()));
     let case = || format!("de|{}|{}", ty, input);
@@ -148,12 +264,95 @@ fn judge<T: DeserializeOwned + Debug>(chk: &Check, cnt: &Cnt, ty: &str, cls_if_b
                 Ok(Some(bad)) => vio(chk, "deserialize-accepts-invalid", &format!("{}/{}", ty, cls_if_bad), case(), format!("{} deserialised to {:?}: {}", input, v, bad)),
                 Ok(None) => {
                     if !valid {
-                        vio(chk, "deserialize-accepts-invalid", &format!("{}/{}", ty, cls_if_bad), case(), format!("{} violates the constructors' preconditions but deserialised to {:?}", input, v));
+                        // accepted, and the result satisfies every invariant: allowed by the statement
+                        cnt.lenient.fetch_add(1, Ordering::Relaxed);
                     }
                 }
             }
         }
     }
+}
+
+/// Shapes that are nobody's natural representation (byte strings, strings, scalars, nulls,
+/// truncated sequences, maps with a field missing): whatever a Deserialize impl makes of them,
+/// an accepted value must satisfy the invariants. Both front ends.
+fn shapes<T: DeserializeOwned + Debug>(chk: &Check, cnt: &Cnt, ty: &str, check: &dyn Fn(&T) -> Option<String>) {
+    let judge_one = |how: String, r: Result<Result<T, DeErr>, String>| {
+        cnt.evals.fetch_add(1, Ordering::Relaxed);
+        cnt.invalid_inputs.fetch_add(1, Ordering::Relaxed);
+        match r {
+            Err(p) => vio(chk, "deserialize-panics", &format!("{}/shape", ty), format!("shape|{}|{}", ty, how), format!("deserialising {} as {} panicked: {}", how, ty, p)),
+            Ok(Ok(v)) => match catch(|| check(&v)) {
+                Err(p) => vio(chk, "deserialize-accepts-invalid", &format!("{}/unusual-shape/accessor-panics", ty), format!("shape|{}|{}", ty, how), format!("{} deserialised to {:?}; an accessor then panicked: {}", how, v, p)),
+                Ok(Some(bad)) => vio(chk, "deserialize-accepts-invalid", &format!("{}/unusual-shape", ty), format!("shape|{}|{}", ty, how), format!("{} deserialised to {:?}: {}", how, v, bad)),
+                Ok(None) => {
+                    cnt.lenient.fetch_add(1, Ordering::Relaxed);
+                }
+            },
+            Ok(Err(_)) => {}
+        }
+    };
+    // byte strings: every string of length 0..=4 over {0, 1, 0x7F, 0x80, 0xFF}, plus for length 3
+    // every first byte with the second and third from {0, 0x7F, 0x80, 0xFF}
+    let b5 = [0u8, 1, 0x7F, 0x80, 0xFF];
+    let mut all: Vec<Vec<u8>> = vec![vec![]];
+    let mut level: Vec<Vec<u8>> = vec![vec![]];
+    for _ in 0..4 {
+        let mut next = Vec::new();
+        for v in &level {
+            for &b in &b5 {
+                let mut w = v.clone();
+                w.push(b);
+                next.push(w);
+            }
+        }
+        all.extend(next.iter().cloned());
+        level = next;
+    }
+    for s0 in 0..=255u8 {
+        for &a in &[0u8, 0x7F, 0x80, 0xFF] {
+            for &b in &[0u8, 0x7F, 0x80, 0xFF] {
+                all.push(vec![s0, a, b]);
+            }
+        }
+    }
+    for bytes in &all {
+        judge_one(format!("bytes {:?}", bytes), catch(|| T::deserialize(BytesDeserializer::<DeErr>::new(bytes))));
+        judge_one(format!("bytes {:?} (not human readable)", bytes), catch(|| T::deserialize(nh::NH(BytesDeserializer::<DeErr>::new(bytes)))));
+    }
+    for st in ["", "0", "5", "127", "128", "NoteOn", "DataEntry", "\u{0}", "[144,1,2]"] {
+        judge_one(format!("str {:?}", st), catch(|| T::deserialize(StrDeserializer::<DeErr>::new(st))));
+        judge_one(format!("str {:?} (not human readable)", st), catch(|| T::deserialize(nh::NH(StrDeserializer::<DeErr>::new(st)))));
+    }
+    for j in [json!(null), json!(true), json!(1.5), json!([]), json!({}), json!([[144, 1, 2]]), json!([null]), json!({"0": 144, "1": 1, "2": 2}), json!([255]), json!([200, 200]), json!([16, 200, 70000, true, false])] {
+        let how = format!("json {}", j);
+        judge_one(how.clone(), catch(|| T::deserialize(j.clone()).map_err(|e| serde::de::Error::custom(e))));
+        judge_one(format!("{} (not human readable)", how), catch(|| T::deserialize(nh::NH(j.clone())).map_err(|e| serde::de::Error::custom(e))));
+    }
+}
+
+/// Every map input of a struct grid is also tried with each single field removed, and every
+/// sequence input truncated by one element.
+fn with_omissions(v: &Value) -> Vec<Value> {
+    let mut out = Vec::new();
+    match v {
+        Value::Object(m) => {
+            for k in m.keys() {
+                let mut c = m.clone();
+                c.remove(k);
+                out.push(Value::Object(c));
+            }
+        }
+        Value::Array(a) => {
+            for i in 0..a.len() {
+                let mut c = a.clone();
+                c.remove(i);
+                out.push(Value::Array(c));
+            }
+        }
+        _ => {}
+    }
+    out
 }
 
 fn raw_ok(m: &RawShortMessage) -> Option<String> {
@@ -261,14 +460,17 @@ fn composites(chk: &Check, cnt: &Cnt, tier: Tier) {
                 let valid = c <= 15 && n <= 31 && v <= 16383;
                 let cls = if c > 15 { "channel>15" } else if n > 127 { "controller>127" } else if n > 31 { "msb-controller>31" } else { "value>16383" };
                 judge::<ControlChange14BitMessage>(chk, cnt, "ControlChange14BitMessage", cls, &json!({"channel": c, "msb_controller_number": n, "value": v}), valid, cc14_ok);
+                if n % 16 == 0 || n == 31 || n == 33 {
+                    for o in with_omissions(&json!({"channel": c, "msb_controller_number": n, "value": v})).iter().chain(with_omissions(&json!([c, n, v])).iter()) {
+                        judge::<ControlChange14BitMessage>(chk, cnt, "ControlChange14BitMessage", &format!("{}/field-omitted", cls), o, false, cc14_ok);
+                    }
+                }
                 // sequence form (serde derives accept it for self-describing formats)
                 let r = catch(|| serde_json::from_value::<ControlChange14BitMessage>(json!([c, n, v])));
                 cnt.evals.fetch_add(1, Ordering::Relaxed);
                 if let Ok(Ok(m)) = r {
                     if let Ok(Some(bad)) | Ok(Some(bad)) = catch(|| cc14_ok(&m)) {
                         vio(chk, "deserialize-accepts-invalid", &format!("ControlChange14BitMessage/{}/seq-form", cls), format!("de|ControlChange14BitMessage|[{},{},{}]", c, n, v), format!("[{},{},{}] deserialised to {:?}: {}", c, n, v, m, bad));
-                    } else if !valid {
-                        vio(chk, "deserialize-accepts-invalid", &format!("ControlChange14BitMessage/{}/seq-form", cls), format!("de|ControlChange14BitMessage|[{},{},{}]", c, n, v), format!("[{},{},{}] violates the preconditions but deserialised to {:?}", c, n, v, m));
                     }
                 }
             }
@@ -289,6 +491,9 @@ fn composites(chk: &Check, cnt: &Cnt, tier: Tier) {
                             let valid = fields_ok && consistent;
                             let cls = if !fields_ok { "field-out-of-range" } else if is14 { "14-bit-with-inc-dec" } else { "7-bit-value>127" };
                             judge::<ParameterNumberMessage>(chk, cnt, "ParameterNumberMessage", cls, &json!({"channel": c, "number": n, "value": v, "is_registered": reg, "is_14_bit": is14, "data_type": dt}), valid, pnm_ok);
+                            for o in with_omissions(&json!({"channel": c, "number": n, "value": v, "is_registered": reg, "is_14_bit": is14, "data_type": dt})).iter().chain(with_omissions(&json!([c, n, v, reg, is14, dt])).iter()) {
+                                judge::<ParameterNumberMessage>(chk, cnt, "ParameterNumberMessage", &format!("{}/field-omitted", cls), o, false, pnm_ok);
+                            }
                             // the same field values as a sequence (what non-self-describing formats feed the derive)
                             judge::<ParameterNumberMessage>(chk, cnt, "ParameterNumberMessage", &format!("{}/seq-form", cls), &json!([c, n, v, reg, is14, dt]), valid, pnm_ok);
                         }
@@ -354,6 +559,14 @@ fn composites(chk: &Check, cnt: &Cnt, tier: Tier) {
         let valid = b <= 255 && (b as u8 >= 0xF0 || (b >= 0x80 && b & 0x0F == 0));
         judge::<ShortMessageType>(chk, cnt, "ShortMessageType", "repr", &json!(b), valid, |t| if u8::from(*t) as u32 != b { Some(format!("decoded as {:?}", t)) } else { None });
     }
+    shapes::<RawShortMessage>(chk, cnt, "RawShortMessage", &raw_ok);
+    shapes::<StructuredShortMessage>(chk, cnt, "StructuredShortMessage", &structured_ok);
+    shapes::<ControlChange14BitMessage>(chk, cnt, "ControlChange14BitMessage", &cc14_ok);
+    shapes::<ParameterNumberMessage>(chk, cnt, "ParameterNumberMessage", &pnm_ok);
+    shapes::<U7>(chk, cnt, "U7", &|v: &U7| if v.get() > 127 { Some("out of range".into()) } else { None });
+    shapes::<U14>(chk, cnt, "U14", &|v: &U14| if v.get() > 16383 { Some("out of range".into()) } else { None });
+    shapes::<Channel>(chk, cnt, "Channel", &|v: &Channel| if v.get() > 15 { Some("out of range".into()) } else { None });
+    shapes::<TimeCodeQuarterFrame>(chk, cnt, "TimeCodeQuarterFrame", &|f: &TimeCodeQuarterFrame| if U7::from(*f).get() > 127 { Some("encodes out of range".into()) } else { None });
     judge::<ShortMessageType>(chk, cnt, "ShortMessageType", "repr", &json!("NoteOn"), false, |_| None);
     judge::<ShortMessageType>(chk, cnt, "ShortMessageType", "repr", &json!(-112), false, |_| None);
 }
@@ -417,7 +630,7 @@ fn roundtrips(chk: &Check, cnt: &Cnt, tier: Tier) {
 
 fn run_c19(chk: &Check, tier: Tier) {
     chk.rule("with features serde + serde_repr: each of the six integer types through serde's primitive value deserializers (every u8/i8/u16/i16 value; boundary and truncation values for 32/64-bit; str, bool, unit, float, sequences, maps); composite types through serde_json::Value trees whose field values run over boundary sets that include the first invalid value of every field (RawShortMessage: all 257 status values x data grid; ControlChange14BitMessage: all 257 controller values, map and sequence form; ParameterNumberMessage: every combination of resolution flag, data type and value boundary; StructuredShortMessage: every variant x per-field {0,max,max+1,65536+5}; quarter frames, time code types, data types, type bytes 0..600). An accepted value must satisfy the constructors' invariants, equal a constructor-built value and survive its accessors/encoders; natural representations of valid values must round-trip. non-trivial = distinct inputs that violate a constructor precondition (must be rejected)");
-    let cnt = Cnt { evals: AtomicU64::new(0), invalid_inputs: AtomicU64::new(0) };
+    let cnt = Cnt { evals: AtomicU64::new(0), invalid_inputs: AtomicU64::new(0), lenient: AtomicU64::new(0) };
     ints_for::<U4>(chk, &cnt, tier);
     ints_for::<U7>(chk, &cnt, tier);
     ints_for::<U14>(chk, &cnt, tier);
@@ -428,6 +641,7 @@ fn run_c19(chk: &Check, tier: Tier) {
     roundtrips(chk, &cnt, tier);
     chk.add_eval(cnt.evals.load(Ordering::Relaxed));
     chk.add_nontrivial(cnt.invalid_inputs.load(Ordering::Relaxed));
+    chk.set("inputs_accepted_leniently_with_a_valid_result", json!(cnt.lenient.load(Ordering::Relaxed)));
     chk.sample(json!({"type": "RawShortMessage", "input": [2, 64, 100], "required": "Err (status byte < 0x80)"}));
     chk.sample(json!({"type": "ControlChange14BitMessage", "input": {"channel": 0, "msb_controller_number": 64, "value": 5}, "required": "Err"}));
     chk.sample(json!({"type": "ParameterNumberMessage", "input": {"channel": 0, "number": 1, "value": 16383, "is_registered": false, "is_14_bit": false, "data_type": "DataEntry"}, "required": "Err (7-bit value > 127)"}));
